@@ -4,6 +4,7 @@ import (
 	"fmt"
 	"go/token"
 	"go/types"
+	"sort"
 	"strings"
 
 	"golang.org/x/tools/go/ssa"
@@ -170,47 +171,92 @@ func c36Setters(e *c36Env) {
 		}
 		fRep := c.Field("", "cacheV"+v, "reported")
 		n := 0
-		eachInstr(fn, func(in ssa.Instruction) {
-			call, ok := in.(*ssa.Call)
-			if !ok || builtinName(call) != "append" {
-				return
+		// the appends of the setter itself, and those of helpers the reported list is threaded through
+		// (`c.reported = appendIfAllowed(c.reported, vpnIp, v, check)`, x_fix3_helpers.go)
+		w := fix3NewWalker()
+		chain := &fix3Chain{}
+		if fRep != nil {
+			for _, st := range g6StoresToField(fn, fRep) {
+				chain.merge(fix3ChainOf(w, st.Val))
 			}
+		}
+		eachInstr(fn, func(in ssa.Instruction) {
+			if call, ok := in.(*ssa.Call); ok && builtinName(call) == "append" {
+				if s := (fix3Site{Append: call}); !chain.has(s) {
+					chain.Sites = append(chain.Sites, s)
+				}
+			}
+		})
+		sort.SliceStable(chain.Sites, func(i, j int) bool {
+			a, b := chain.Sites[i], chain.Sites[j]
+			if a.Root().Pos() != b.Root().Pos() {
+				return a.Root().Pos() < b.Root().Pos()
+			}
+			return a.Append.Pos() < b.Append.Pos()
+		})
+		for i, why := range chain.Opaque {
+			c.Unknown("C36.set-filter", fmt.Sprintf("%s:helper#%d", setRef.Name, i+1), "the reported list is handed to a helper whose effect on it is not understood ("+why+"): cannot decide what it appends")
+		}
+		for _, site := range chain.Sites {
+			call := site.Append
 			n++
+			c.Funcs[call.Parent().String()] = true
 			cons := fmt.Sprintf("%s:append#%d", setRef.Name, n)
 			elems := g5AppendedElems(call)
 			if len(elems) == 0 {
-				c.Bad("C36.set-filter", cons, c.instrPos(call), "a whole slice is appended to the reported list: no per-address filter can have been applied")
-				return
+				c.Bad("C36.set-filter", cons, c.instrPos(site.Root()), "a whole slice is appended to the reported list ("+site.String()+"): no per-address filter can have been applied")
+				continue
 			}
 			okAll, okSubj := true, true
 			var wpath []string
 			for _, el := range elems {
-				elem := el
-				g := Guard{Name: "filter(subject, element) == true", Match: func(cd Cond, _ *ssa.If) (bool, bool) {
-					if cd.Kind != CondBool {
-						return false, false
+				levels := fix3Levels(site, el)
+				mk := func(li int) func(fix3Level) Guard {
+					return func(lv fix3Level) Guard {
+						elem := lv.Val
+						return Guard{Name: "filter(subject, element) == true", Match: func(cd Cond, _ *ssa.If) (bool, bool) {
+							if cd.Kind != CondBool {
+								return false, false
+							}
+							cl, ok := stripValue(cd.Base).(*ssa.Call)
+							if !ok || len(cl.Call.Args) != 2 || !sameVar(cl.Call.Args[1], elem) {
+								return false, false
+							}
+							// the function called is the setter's filter parameter, the subject one of its address parameters
+							// (both possibly handed down to the helper as parameters)
+							if fv := fix3ToRoot(site, li, stripValue(cl.Call.Value)); fv == nil || stripValue(fv) != ssa.Value(chk) {
+								return false, false
+							}
+							subj := fix3ToRoot(site, li, cl.Call.Args[0])
+							if p, isP := subj.(*ssa.Parameter); !isP || p.Parent() != fn || owner == nil || ssa.Value(p) == owner {
+								okSubj = false
+							}
+							return true, !cd.Neg
+						}}
 					}
-					cl, ok := stripValue(cd.Base).(*ssa.Call)
-					if !ok || stripValue(cl.Call.Value) != ssa.Value(chk) || len(cl.Call.Args) != 2 || !sameVar(cl.Call.Args[1], elem) {
-						return false, false
+				}
+				pass := false
+				for li, lv := range levels {
+					ok, _, path := c.mustPass(lv.Fn, Sink{Instr: lv.At}, mk(li)(lv))
+					if ok {
+						pass = true
+						break
 					}
-					if p, isP := cl.Call.Args[0].(*ssa.Parameter); !isP || owner == nil || ssa.Value(p) == owner {
-						okSubj = false
+					if li == 0 {
+						wpath = path
 					}
-					return true, !cd.Neg
-				}}
-				pass, _, path := c.mustPass(fn, Sink{Instr: call}, g)
+				}
 				if !pass {
-					okAll, wpath = false, path
+					okAll = false
 				}
 			}
 			if okAll {
 				c.OK("C36.set-filter", cons, "appended only after the filter accepted the element")
 			} else {
-				c.Bad("C36.set-filter", cons, c.instrPos(call), "an address is stored in the reported list without the filter having accepted it", wpath...)
+				c.Bad("C36.set-filter", cons, c.instrPos(site.Root()), "an address is stored in the reported list ("+site.String()+") without the filter having accepted it", wpath...)
 			}
-			c.Check(okSubj, "C36.set-filter", cons+":subject", c.instrPos(call), "the filter is asked about the subject (non-owner) address", "the filter is called with the owner key instead of the overlay address the addresses belong to: the per-overlay-range allow list is looked up for the wrong host")
-		})
+			c.Check(okSubj, "C36.set-filter", cons+":subject", c.instrPos(site.Root()), "the filter is asked about the subject (non-owner) address", "the filter is called with the owner key instead of the overlay address the addresses belong to: the per-overlay-range allow list is looked up for the wrong host")
+		}
 		if n == 0 {
 			c.Unknown("C36.set-filter", setRef.Name, "no append found: unrecognised shape")
 		}
@@ -293,6 +339,7 @@ func c36Cap(c *Ctx, fn *ssa.Function, f *types.Var, k int64) {
 		return false
 	}
 	loops := naturalLoops(fn)
+	walker := fix3NewWalker()
 	isReset := func(v ssa.Value) bool {
 		sl, ok := v.(*ssa.Slice)
 		return ok && isLoadF(sl.X) && sl.High != nil && g5IntAtMost(sl.High, 0)
@@ -321,25 +368,32 @@ func c36Cap(c *Ctx, fn *ssa.Function, f *types.Var, k int64) {
 		if isTrunc(st) {
 			continue // reset or truncation
 		}
-		call, ok := st.Val.(*ssa.Call)
-		if !ok || builtinName(call) != "append" {
+		// append(base, ...), or a helper that gives its slice argument back unchanged or extended by one element
+		// (`c.reported = appendIfAllowed(c.reported, vpnIp, v, check)`): one element per evaluation
+		var base, more ssa.Value
+		nEl := 0
+		if call, ok := st.Val.(*ssa.Call); ok && builtinName(call) == "append" {
+			base, more = call.Call.Args[0], call.Call.Args[1]
+			nEl = len(g5AppendedElems(call))
+		} else if b, one := fix3OnePerCall(walker, st.Val); one {
+			base, nEl = b, 1
+		} else {
 			c.Unknown("C36.cap", cons, "the list is assigned from "+exprString(st.Val)+": unrecognised shape")
 			return
 		}
-		base, more := call.Call.Args[0], call.Call.Args[1]
 		lp := innermostLoop(loops, st.Block())
 		switch {
 		case isReset(base) && lp == nil: // append(list[:0], s...)
-			if !g5LenAtMost(more, k) && len(g5AppendedElems(call)) == 0 {
+			if nEl == 0 && !g5LenAtMost(more, k) {
 				c.Bad("C36.cap", cons, c.instrPos(st), "a slice that is not bounded by MaxRemotes is appended: "+exprString(more))
 				return
 			}
-		case isLoadF(base) && len(g5AppendedElems(call)) == 1 && lp == nil:
+		case isLoadF(base) && nEl == 1 && lp == nil:
 			if !resetBefore(st, nil) && !truncatedAfter(st) {
 				c.Bad("C36.cap", cons, c.instrPos(st), "an element is appended without a preceding reset or a following truncation to MaxRemotes")
 				return
 			}
-		case isLoadF(base) && len(g5AppendedElems(call)) == 1:
+		case isLoadF(base) && nEl == 1:
 			bounded, recognised := g5LoopBound(lp, k)
 			if !recognised {
 				c.Unknown("C36.cap", cons, "elements are appended in a loop whose trip count is not of the form idx < bound: unrecognised shape")
@@ -583,59 +637,131 @@ func c36Collect(e *c36Env) {
 		return
 	}
 	fShould := c.Field("", "RemoteList", "shouldAdd")
+	fBad := c.Field("", "RemoteList", "badRemotes")
+	fAddrs := c.Field("", "RemoteList", "addrs")
 	isDNS := func(v ssa.Value) bool {
 		return derivesFrom(v, sliceLocal, isCallTo(Ref{"", "hostnamesResults", "GetAddrs"}))
 	}
-	n := 0
-	eachInstr(fn, func(in ssa.Instruction) {
-		call, ok := in.(*ssa.Call)
-		if !ok || builtinName(call) != "append" {
-			return
+	isAddrPortAppend := func(call *ssa.Call) bool {
+		if builtinName(call) != "append" {
+			return false
 		}
 		sl, isS := call.Type().Underlying().(*types.Slice)
-		if !isS || !g5IsNamed(sl.Elem(), "net/netip", "AddrPort") {
-			return
+		return isS && g5IsNamed(sl.Elem(), "net/netip", "AddrPort")
+	}
+	// the appends that build the destination list: in the collector itself, or in helpers the accumulator is threaded
+	// through (`addrs = r.appendUnlessBad(addrs, u)`); plus every other append of addresses in the collector
+	w := fix3NewWalker()
+	chain := &fix3Chain{}
+	if fAddrs != nil {
+		for _, st := range g6StoresToField(fn, fAddrs) {
+			chain.merge(fix3ChainOf(w, st.Val))
+		}
+	}
+	for _, f := range funcsWithAnon(fn) { // function literals of the collector too: a test counts inside the literal only
+		eachInstr(f, func(in ssa.Instruction) {
+			if call, ok := in.(*ssa.Call); ok && isAddrPortAppend(call) {
+				if s := (fix3Site{Append: call}); !chain.has(s) {
+					chain.Sites = append(chain.Sites, s)
+				}
+			}
+		})
+	}
+	sort.SliceStable(chain.Sites, func(i, j int) bool {
+		a, b := chain.Sites[i], chain.Sites[j]
+		if a.Root().Pos() != b.Root().Pos() {
+			return a.Root().Pos() < b.Root().Pos()
+		}
+		return a.Append.Pos() < b.Append.Pos()
+	})
+	for i, why := range chain.Opaque {
+		c.Unknown("C36.collect", fmt.Sprintf("unlockedCollect:helper#%d", i+1), "the destination list is handed to a helper whose effect on it is not understood ("+why+"): cannot decide what it appends")
+	}
+	n := 0
+	for _, site := range chain.Sites {
+		call := site.Append
+		if !isAddrPortAppend(call) {
+			continue
 		}
 		n++
+		c.Funcs[call.Parent().String()] = true
 		cons := fmt.Sprintf("unlockedCollect:append#%d", n)
 		elems := g5AppendedElems(call)
 		if len(elems) == 0 {
-			c.Bad("C36.collect", cons, c.instrPos(call), "a whole slice is appended to the destination list: blocked / unusable addresses are not filtered out")
-			return
+			c.Bad("C36.collect", cons, c.instrPos(site.Root()), "a whole slice is appended to the destination list ("+site.String()+"): blocked / unusable addresses are not filtered out")
+			continue
 		}
 		for _, el := range elems {
-			elem := el
-			notBad := g5Lift(c, "unlockedIsBad(address) == false", func(x ssa.Value) bool { return sameVar(x, elem) }, func(root func(ssa.Value) bool) Guard {
-				return gBool("unlockedIsBad(address) == false", false, -1, callTo(Ref{"", "RemoteList", "unlockedIsBad"}).withArg(1, func(v ssa.Value) bool { return derivesFrom(v, sliceLocal, root) }))
-			})
-			guards := []Guard{notBad}
-			if isDNS(elem) {
+			// the appended value as the function holding the append sees it and, where it is a parameter handed in, as
+			// each caller up to the collector sees it: a test counts at whichever level it is made on that very value
+			levels := fix3Levels(site, el)
+			type req struct {
+				name string
+				mk   func(fix3Level) Guard
+				bad  bool // the blocked test
+			}
+			reqs := []req{{"unlockedIsBad(address) == false", func(lv fix3Level) Guard {
+				val := lv.Val
+				return g5Lift(c, "unlockedIsBad(address) == false", func(x ssa.Value) bool { return sameVar(x, val) }, func(root func(ssa.Value) bool) Guard {
+					return fix3NotBlocked("unlockedIsBad(address) == false", fBad, func(v ssa.Value) bool { return derivesFrom(v, sliceLocal, root) })
+				})
+			}, true}}
+			dns := false
+			for _, lv := range levels {
+				if isDNS(lv.Val) {
+					dns = true
+				}
+			}
+			if dns {
 				cons += ":dns"
-				guards = append(guards, gAny("shouldAdd accepted the DNS result (nil only in tests)",
-					gValNil("shouldAdd == nil", func(v ssa.Value) bool { return loadsField(v, fShould) }),
-					Guard{Name: "shouldAdd(vpnAddrs, address)", Match: func(cd Cond, _ *ssa.If) (bool, bool) {
-						if cd.Kind != CondBool {
-							return false, false
-						}
-						cl, ok := stripValue(cd.Base).(*ssa.Call)
-						if !ok || !loadsField(cl.Call.Value, fShould) || len(cl.Call.Args) != 2 || !g5FromThrough(elem)(cl.Call.Args[1]) {
-							return false, false
-						}
-						return true, !cd.Neg
-					}}))
+				reqs = append(reqs, req{"shouldAdd accepted the DNS result (nil only in tests)", func(lv fix3Level) Guard {
+					val := lv.Val
+					return gAny("shouldAdd accepted the DNS result (nil only in tests)",
+						gValNil("shouldAdd == nil", func(v ssa.Value) bool { return loadsField(v, fShould) }),
+						Guard{Name: "shouldAdd(vpnAddrs, address)", Match: func(cd Cond, _ *ssa.If) (bool, bool) {
+							if cd.Kind != CondBool {
+								return false, false
+							}
+							cl, ok := stripValue(cd.Base).(*ssa.Call)
+							if !ok || !loadsField(cl.Call.Value, fShould) || len(cl.Call.Args) != 2 || !g5FromThrough(val)(cl.Call.Args[1]) {
+								return false, false
+							}
+							return true, !cd.Neg
+						}})
+				}, false})
 			}
 			okAll := true
-			for _, g := range guards {
-				if pass, _, path := c.mustPass(fn, Sink{Instr: call}, g); !pass {
-					okAll = false
-					c.Bad("C36.collect", cons, c.instrPos(call), "an address reaches the destination list without the test "+g.Name, path...)
+			var where []string
+			for _, r := range reqs {
+				pass, dead, at, path := fix3PassAtSomeLevel(c, levels, r.mk)
+				if pass {
+					where = append(where, at)
+					continue
+				}
+				okAll = false
+				unrecognised := false
+				if r.bad && fBad != nil {
+					for _, lv := range levels {
+						val := lv.Val
+						if fix3ComparesWithElemOf(lv.Fn, func(v ssa.Value) bool { return sameVar(v, val) }, fBad) {
+							unrecognised = true
+						}
+					}
+				}
+				switch {
+				case unrecognised:
+					c.Unknown("C36.collect", cons, "the address is compared with the blocked list in a form that is not recognised (expected !unlockedIsBad(address) / !slices.Contains(badRemotes, address) in front of the append): cannot decide the test "+r.name)
+				case dead:
+					c.Unknown("C36.collect", cons, "no test "+r.name+" found and the append is unreachable: unrecognised shape")
+				default:
+					c.Bad("C36.collect", cons, c.instrPos(site.Root()), "an address reaches the destination list ("+site.String()+") without the test "+r.name, path...)
 				}
 			}
 			if okAll {
-				c.OK("C36.collect", cons, fmt.Sprintf("%d test(s) on every path", len(guards)))
+				c.OK("C36.collect", cons, fmt.Sprintf("%d test(s) on every path (%s; in %s)", len(reqs), site.String(), strings.Join(where, ", ")))
 			}
 		}
-	})
+	}
 	if n == 0 {
 		c.Unknown("C36.collect", "unlockedCollect", "no append to the destination list found")
 	}
